@@ -1,11 +1,15 @@
 #!/bin/sh
-# tools/check_seed.sh <name> <patch.diff> <ID> [<ID>...]: runs the quick checks in a sandbox copy with the patch applied
+# tools/check_seed.sh <sandbox-name> <patch.diff> <ID> [<ID>...]
+# Runs the quick checks in a (reused) sandbox copy of /verif + worktree of /repo with the patch applied, then reverts it.
 name="$1"; patch="$2"; shift 2
-/verif/tools/mk_sandbox.sh "$name" >/dev/null || exit 2
-cd /tmp/sb_$name/repo && git apply "$patch" || { echo "patch does not apply to sandbox repo"; exit 2; }
+if [ ! -d /tmp/sb_$name ]; then /verif/tools/mk_sandbox.sh "$name" >/dev/null || exit 2; fi
+# refresh the sandbox's verif copy (specs / families may have changed since it was made)
+rsync -a --exclude target --exclude runs --exclude .git --exclude __pycache__ --exclude states --exclude "*_TTrace_*" /verif/ /tmp/sb_$name/verif/ || [ $? -eq 24 ]
+cd /tmp/sb_$name/repo && git checkout -q -- . && git checkout -q --detach "$(git -C /repo rev-parse HEAD)" && git apply "$patch" || { echo "patch does not apply to sandbox repo"; exit 2; }
 cd /tmp/sb_$name/verif
 for id in "$@"; do
-  VERIF_REPO=/tmp/sb_$name/repo ./check $id > /tmp/cs_$name_$id.log 2>&1; rc=$?
-  echo "== $id rc=$rc"; grep -E "^VIOLATION|^KNOWN-FINDING|TOOL-ERROR" /tmp/cs_$name_$id.log | head -4
-  grep -E "^\[verif\]   " /tmp/cs_$name_$id.log | head -3
+  VERIF_NOCACHE=1 VERIF_REPO=/tmp/sb_$name/repo ./check $id > /tmp/cs_${name}_$id.log 2>&1; rc=$?
+  echo "== $id rc=$rc"; grep -E "^VIOLATION|^KNOWN-FINDING|TOOL-ERROR" /tmp/cs_${name}_$id.log | cut -c1-220 | head -4
+  grep -E "^\[verif\]   " /tmp/cs_${name}_$id.log | cut -c1-260 | head -3
 done
+cd /tmp/sb_$name/repo && git checkout -q -- .
